@@ -5,6 +5,7 @@
 (*   "mut"    near-equal tree f (one field changed) and a second one g        *)
 (*   "fmap"   replacement map sub-term -> fresh identifier (1 or 2 keys)      *)
 (*   "imap"   replacement map identifier -> small image tree                  *)
+(*   "cmap"   two-key map whose first image is the second key (chain / swap)  *)
 (*   "pat"    wildcard pattern of the tree (instances and non-linear cases)   *)
 (*   "patmut" pattern of the tree against a mutation of it (same shape)       *)
 (*   "patpart" pattern with a repeated wildcard against the tree in which one *)
@@ -29,6 +30,7 @@ Derive == /\ aux = NoAux /\ Complete /\ UNCHANGED <<stack, nodes>>
                                 g |-> LET gs == Mutations(f) \ {Tree} IN IF gs = {} THEN f ELSE CHOOSE x \in gs : TRUE]
                  [] kd = "fmap" -> Tree.k # "aff" /\ \E mp \in FreshMaps(Tree) : aux' = [kind |-> "map", e |-> Tree, map |-> mp]
                  [] kd = "imap" -> \E mp \in IdMaps(Tree) \cup SegMaps(Tree) : aux' = [kind |-> "map", e |-> Tree, map |-> mp]
+                 [] kd = "cmap" -> \E mp \in ChainMaps(Tree) : aux' = [kind |-> "map", e |-> Tree, map |-> mp]
                  [] kd = "pat" -> Tree.k # "aff" /\ \E pt \in Patterns(Tree) : aux' = [kind |-> "pat", e |-> Tree, pat |-> pt.pat, wild |-> pt.wild]
                  [] kd = "patpart" -> Tree.k # "aff" /\ \E pt \in Partial(Tree) : aux' = [kind |-> "pat", e |-> pt.e, pat |-> pt.pat, wild |-> pt.wild]
                  [] kd = "patmut" -> Tree.k # "aff" /\ \E pt \in Patterns(Tree) : \E m \in Mutations(Tree) :
